@@ -12,6 +12,7 @@ import (
 	"runtime"
 	"sort"
 	"strings"
+	"syscall"
 	"time"
 
 	"golang.org/x/tools/go/ssa"
@@ -377,6 +378,9 @@ func report(prop, tier string, seed int64, results []*symgo.HarnessResult, kf []
 
 // runNative executes a harness natively on the inputs of a replay file.
 func runNative(path, tier string) int {
+	// bound the address space so that an unbounded allocation fails fast instead of exhausting the sandbox
+	lim := syscall.Rlimit{Cur: 8 << 30, Max: 8 << 30}
+	syscall.Setrlimit(syscall.RLIMIT_AS, &lim)
 	b, err := os.ReadFile(path)
 	if err != nil {
 		fmt.Println("cannot read replay:", err)
